@@ -126,7 +126,7 @@ _add(
         "requirement_constraint_evaluation with harness evaluators; oracle: recursive reference evaluator on the generator's AST + documented "
         "outcome mapping. distinct non-trivial = distinct expression strings with >= 2 requirement keys and a hint or format constraint"
     ),
-    deciding={"any": {"expressions": 300, "nontrivial_expressions": 100, "evaluations_with_unknown": 1000, "async_evaluations": 500}},
+    deciding={"any": {"expressions": 300, "nontrivial_expressions": 100, "evaluations_with_unknown": 1000, "async_evaluations": 500, "evaluations_with_shipped_evaluators": 200}},
     headline=["expressions", "nontrivial_expressions", "async_evaluations", "operator_calls_observed"],
 )
 
@@ -191,7 +191,7 @@ _add(
         "or the default the base evaluator inserts); absent and empty expression. Oracle: Boolean value of the AST; message present iff "
         "unfulfilled. distinct non-trivial = distinct expression strings mixing >= 2 operator kinds"
     ),
-    deciding={"any": {"expressions": 300, "expressions_mixing_operators": 100, "unfulfilled_results": 1000, "fulfilled_results": 1000, "async_evaluations": 500, "empty_expressions": 2, "evaluations_without_messages": 1000, "async_evaluations_under_random_completion_order": 200}},
+    deciding={"any": {"expressions": 300, "expressions_mixing_operators": 100, "unfulfilled_results": 1000, "fulfilled_results": 1000, "async_evaluations": 500, "empty_expressions": 2, "evaluations_without_messages": 1000, "async_evaluations_under_random_completion_order": 200, "evaluations_with_shipped_evaluators": 200}},
     headline=["expressions", "expressions_mixing_operators", "fulfilled_results", "unfulfilled_results", "async_evaluations"],
 )
 
@@ -208,7 +208,7 @@ _add(
         "Oracle: written parts vs. tree children (AHB parser and resolver), reference selection of the first fulfilled part, selected part's "
         "outcome vs. evaluating its own condition expression alone (resolved and unresolved tree). distinct non-trivial = distinct expressions with >= 2 parts"
     ),
-    deciding={"any": {"ahb_expressions": 300, "spelling_variants": 150, "form:bare": 20, "form:prefix": 50, "form:modal": 150, "later_part_selected": 100, "evaluations_with_unknown_part": 50}},
+    deciding={"any": {"ahb_expressions": 300, "spelling_variants": 150, "form:bare": 20, "form:prefix": 50, "form:modal": 150, "later_part_selected": 100, "evaluations_with_unknown_part": 50, "evaluations_with_shipped_evaluators": 200}},
     headline=["ahb_expressions", "spelling_variants", "later_part_selected", "evaluations_with_unknown_part"],
 )
 
@@ -278,7 +278,7 @@ _add(
         "NotImplementedError iff a visited MUSS/prefix node is UNKNOWN; validate_segment_level on a random sub-tree. distinct non-trivial = "
         "distinct (tree, assignment, flag) with depth >= 3 or pruning"
     ),
-    deciding={"any": {"trees": 100, "nodes_reported": 1500, "trees_with_pruning": 30, "runs_expecting_not_implemented": 3, "segment_level_calls": 50, "runs_with_concurrently_parked_awaitables": 50, "sequence_runs": 50}},
+    deciding={"any": {"trees": 100, "nodes_reported": 1500, "trees_with_pruning": 30, "runs_expecting_not_implemented": 3, "segment_level_calls": 50, "runs_with_concurrently_parked_awaitables": 50, "sequence_runs": 50, "runs_with_shipped_evaluators": 30}},
     headline=["trees", "nodes_reported", "nodes_pruned", "runs_expecting_not_implemented", "segment_level_calls"],
 )
 
